@@ -254,6 +254,12 @@ func init() {
 		rule: "array schemas nested 1-3 deep with independent minItems/maxItems per level at required/optional/nullable positions; one level at a time made min-1/min/max/max+1 long; element-level single faults per element schema kind; verdict vs model",
 	})
 	regSem(&semSpec{id: "C08",
+		extra: func(ctx *Ctx, i int, r *sg.Rng) *sem.Case {
+			if i < 8 {
+				return bothDefsKeywordsCase(i)
+			}
+			return nil
+		},
 		opts:    sg.Opts{MaxDepth: 2, RootKinds: true, W: map[string]float64{"enum": 10, "array": 2, "ref": 2}, PDefault: 0.4},
 		classes: docgen.Classes{"enum": true},
 		own:     classOwner("enum", "valid"),
@@ -1254,6 +1260,40 @@ func lenientFormatCase(i int) *sem.Case {
 	for _, txt := range LenientFormatTexts[f] {
 		c.Docs = append(c.Docs, docgen.Doc{V: jsonx.Obj{{K: "req", V: txt}}, Class: "formatparity", Label: "req"}, docgen.Doc{V: jsonx.Obj{{K: "req", V: good}, {K: "opt", V: txt}}, Class: "formatparity", Label: "opt"},
 			docgen.Doc{V: jsonx.Obj{{K: "req", V: good}, {K: "nul", V: txt}}, Class: "formatparity", Label: "nul"}, docgen.Doc{V: jsonx.Obj{{K: "req", V: good}, {K: "list", V: []any{good, txt}}}, Class: "formatparity", Label: "list"})
+	}
+	return c
+}
+
+// bothDefsKeywordsCase: a document in migration that carries "$defs" and, as well, an older "definitions" block with
+// the same names but other content: a reference "#/$defs/X" means the "$defs" entry.
+func bothDefsKeywordsCase(i int) *sem.Case {
+	kinds := []struct {
+		cur   *sg.Schema
+		old   any
+		in    []any
+		notIn []any
+	}{
+		{&sg.Schema{Types: []string{"string"}, HasEnum: true, Enum: []any{"open", "in_progress", "closed"}}, jsonx.Obj{{K: "type", V: "string"}, {K: "enum", V: []any{"open", "closed", "archived"}}}, []any{"open", "in_progress", "closed"}, []any{"archived", "x"}},
+		{&sg.Schema{Types: []string{"integer"}, HasEnum: true, Enum: []any{jsonx.N(1), jsonx.N(2), jsonx.N(3)}}, jsonx.Obj{{K: "type", V: "integer"}, {K: "enum", V: []any{jsonx.N(1), jsonx.N(4)}}}, []any{jsonx.N(1), jsonx.N(2), jsonx.N(3)}, []any{jsonx.N(4), jsonx.N(0)}},
+		{&sg.Schema{HasEnum: true, Enum: []any{"a", jsonx.N(1), nil}}, jsonx.Obj{{K: "enum", V: []any{"b", jsonx.N(2)}}}, []any{"a", jsonx.N(1)}, []any{"b", jsonx.N(2)}},
+		{&sg.Schema{Types: []string{"string"}, MaxLen: 3}, jsonx.Obj{{K: "type", V: "string"}, {K: "minLength", V: jsonx.N(5)}}, []any{"ab", "abc"}, []any{"abcdef"}},
+	}
+	k := kinds[i%len(kinds)]
+	root := &sg.Schema{Types: []string{"object"}, Defs: []sg.Prop{{Name: "Status", S: k.cur}}, Props: []sg.Prop{
+		{Name: "status", S: &sg.Schema{Ref: "#/$defs/Status", Target: k.cur}},
+		{Name: "history", S: &sg.Schema{Types: []string{"array"}, Items: &sg.Schema{Ref: "#/$defs/Status", Target: k.cur}}},
+	}}
+	root.Extra = append(root.Extra, jsonx.KV{K: "definitions", V: jsonx.Obj{{K: "Status", V: k.old}, {K: "Unused", V: jsonx.Obj{{K: "type", V: "boolean"}}}}})
+	if (i/len(kinds))%2 == 1 {
+		root.Required = []string{"status"}
+	}
+	c := &sem.Case{Root: root, Sig: fmt.Sprintf("both-defs-keywords/%d", i%(2*len(kinds))), NoAuto: true}
+	first := k.in[0]
+	for _, v := range k.in {
+		c.Docs = append(c.Docs, docgen.Doc{V: jsonx.Obj{{K: "status", V: v}}, Class: "enumref", Label: "member"}, docgen.Doc{V: jsonx.Obj{{K: "status", V: first}, {K: "history", V: []any{first, v}}}, Class: "enumref", Label: "member-item"})
+	}
+	for _, v := range k.notIn {
+		c.Docs = append(c.Docs, docgen.Doc{V: jsonx.Obj{{K: "status", V: v}}, Class: "enumref", Label: "non-member"}, docgen.Doc{V: jsonx.Obj{{K: "status", V: first}, {K: "history", V: []any{v}}}, Class: "enumref", Label: "non-member-item"})
 	}
 	return c
 }
